@@ -372,6 +372,10 @@ pub fn run_recorded_in(hist: &Hist, scratch: &Path, name: &str, with_fsync: bool
             shim::marker(i, false);
             let got = ap.apply(i, op);
             shim::marker(i, true);
+            if hist.cfg.sync_interval_ms > 0 && !hist.cfg.sync_always {
+                // let the sync timer tick between the operations
+                std::thread::sleep(std::time::Duration::from_micros(1500 * hist.cfg.sync_interval_ms));
+            }
             if snaps {
                 snapv.push((shim::log_len(), snapshot_dir(&dir)));
             }
